@@ -45,6 +45,8 @@ Definition row_shape (row : nat) : list atom :=
   | 16 => [Ck]                         (* await handle on a finished task *)
   | 17 => [Ck]                         (* Future.wait() on a finished future *)
   | 18 => [Ck]                         (* functools.reduce() with zero callback invocations *)
+  | 19 => [Ck]                         (* await Future on a finished future *)
+  | 20 => [Ck]                         (* await Future on a failed / cancelled future: raises after the checkpoint *)
   (* documented exemptions *)
   | 30 => [CkIf; Effect]               (* Lock.acquire() with fast_acquire=True *)
   | 31 => [Effect]                     (* *_nowait / close *)
@@ -60,7 +62,7 @@ Definition has_yield (l : list atom) : bool :=
 Definition count_effects (l : list atom) : nat :=
   length (filter (fun a => match a with Effect => true | _ => false end) l).
 
-Definition checked_rows : list nat := [1; 2; 3; 4; 5; 6; 7; 8; 10; 11; 12; 13; 14; 15; 16; 17; 18].
+Definition checked_rows : list nat := [1; 2; 3; 4; 5; 6; 7; 8; 10; 11; 12; 13; 14; 15; 16; 17; 18; 19; 20].
 
 (* codec: [row; cancelled] -> [raised; effects; yields >= 1] *)
 Definition run_case (c : list Z) : list Z :=
